@@ -96,17 +96,25 @@ class HttpRelayClient(RelayPoolClient):
         if not self.conn:
             self._new_conn()
             assert self.conn is not None
-        with gevent.Timeout(self.relay.timeout):
-            msg_headers, msg_body = envelope.flatten()
-            headers = self._build_headers(envelope, msg_headers, msg_body)
-            log.request(self.conn, method, self.url.path, headers)
-            self.conn.putrequest(method, self.url.path)
-            for name, value in headers:
-                self.conn.putheader(name.encode('iso-8859-1'),
-                                    value.encode('iso-8859-1'))
-            self.conn.endheaders(msg_headers)
-            self.conn.send(msg_body)
-            self._process_response(self.conn.getresponse(), result)
+        try:
+            with gevent.Timeout(self.relay.timeout):
+                msg_headers, msg_body = envelope.flatten()
+                headers = self._build_headers(envelope, msg_headers, msg_body)
+                log.request(self.conn, method, self.url.path, headers)
+                self.conn.putrequest(method, self.url.path)
+                for name, value in headers:
+                    self.conn.putheader(name.encode('iso-8859-1'),
+                                        value.encode('iso-8859-1'))
+                self.conn.endheaders(msg_headers)
+                self.conn.send(msg_body)
+                self._process_response(self.conn.getresponse(), result)
+        except (gevent.Timeout, Exception) as exc:
+            if not result.ready():
+                msg = 'Delivery timed out' \
+                    if isinstance(exc, gevent.Timeout) else str(exc)
+                reply = Reply('450', '4.4.2 ' + msg)
+                result.set_exception(TransientRelayError(msg, reply))
+            raise
 
     def _parse_smtp_reply_header(self, http_res):
         raw_reply = http_res.getheader('X-Smtp-Reply', '')
